@@ -16,6 +16,7 @@ type Op struct {
 	N     int    `json:"n,omitempty"`   // size / fd slot / buffer size
 	Rec   bool   `json:"rec,omitempty"` // recursive Add/Remove ("/..." appended)
 	Raw   bool   `json:"raw,omitempty"` // P is passed to the API verbatim
+	NQ    bool   `json:"nq,omitempty"`  // lag-free mode: do not wait for quiescence after this operation
 }
 
 // World operation kinds.
